@@ -14,7 +14,8 @@ LEVEL = "exploration"
 DESIGN_REF = "DESIGN.md section 3, C18"
 RULE = ("C02's simulated world with sample_rate in {None,1,2,3,10,100}; the sampling RNG is behind a seam: mode A replaces monkeytype.tracing.random by a scripted "
         "stand-in (all-zero, all-nonzero, 'skip first event then sample a later resumption', i.i.d. scripts), mode B seeds the real random module; mode R runs >= 2000 plain "
-        "calls for the rate band. non-trivial = at least one admitted call completed; distinct = distinct plan digests")
+        "calls for the rate band, mode RS 600..1200 short sessions of 1..3 calls each (a new tracer per session) for the same band; in part of the runs the session is entered "
+        "through monkeytype.trace(config) on a Config that already served a (non-empty) session at another rate. non-trivial = at least one admitted call completed; distinct = distinct plan digests")
 REAL = c02.REAL + ["monkeytype.tracing sampling decision (handle_call)"]
 STUBBED = c02.STUBBED + ["monkeytype.tracing.random (scripted stand-in in mode A; real module seeded from the run seed in modes B/R)"]
 ASSUMPTIONS = c02.ASSUMPTIONS + ["rate band is 6 sigma binomial around calls/N, deterministic per seed"]
